@@ -398,8 +398,9 @@ def tie_refdefs(c, n, profile="debug"):
     return bad == 0
 
 
-def tie_inlines(c, tier, profile="debug"):
-    """correspondence `inlines.<scope>`; returns True when every compared block agrees"""
+def tie_inlines(c, tier, profile="debug", frac=1.0):
+    """correspondence `inlines.<scope>`; returns True when every compared block agrees.  frac < 1 keeps that
+    fraction of every scope (property checks that share this tie; full scopes in INLINES_TIE / C04 thorough)"""
     import docgen, shrink
     rng = c.rng
     thorough = tier != "quick"
@@ -421,6 +422,8 @@ def tie_inlines(c, tier, profile="debug"):
     scopes.append(("docgen documents (whole block trees, reference definitions, random options)", dg))
     all_ok = True
     classes = {}
+    if frac < 1.0:
+        scopes = [(sname, [x for x in cases if rng.random() < frac] or cases[:1]) for sname, cases in scopes]
     for sname, cases in scopes:
         res = run_cases(cases, profile)
         cnt = {}
